@@ -136,7 +136,7 @@ func genC13Case(t *rapid.T) C13Case {
 		case "abi":
 			return C13Line{Kind: "abi", Text: "abi <abi/3.0>,"}
 		case "include":
-			return C13Line{Kind: "include", Text: fmt.Sprintf("include if exists <verif-absent/%d>", i)}
+			return C13Line{Kind: "include", Text: fmt.Sprintf("include if exists <verif-absent/%d>", i%3)} // the same line may come twice
 		case "alias":
 			return C13Line{Kind: "alias", Text: fmt.Sprintf("alias /al%d -> /ar%d,", i, i)}
 		}
